@@ -1,6 +1,7 @@
 package oracle
 
 import (
+	"encoding/base64"
 	"encoding/json"
 
 	"verif.local/lab/rt"
@@ -33,4 +34,12 @@ func errorNameOf(w *rt.WireResp) string {
 		return h[0]
 	}
 	return "?"
+}
+
+func decodeB64(s string) []byte {
+	b, err := base64.StdEncoding.DecodeString(s)
+	if err != nil {
+		return nil
+	}
+	return b
 }
